@@ -42,7 +42,18 @@ class ArrayDimRange(Stmt):
 
     @property
     def is_const(self):
-        return self.lbound.is_const and self.ubound.is_const
+        if not (self.lbound.is_const and self.ubound.is_const):
+            return False
+        try:
+            self.static_lbound
+            self.static_ubound
+        except (OverflowError, ZeroDivisionError, ValueError):
+            # constant bounds that cannot be evaluated (division by
+            # zero, overflow): not usable at compile time. the array
+            # is treated like one with run-time bounds, so that the
+            # error is raised when the DIM statement executes.
+            return False
+        return True
 
     @classmethod
     def node_name(cls):
@@ -71,10 +82,7 @@ class VarDeclClause(Stmt):
 
     @property
     def array_dims_are_const(self):
-        return all(
-            r.lbound.is_const and r.ubound.is_const
-            for r in self.array_dims
-        )
+        return all(r.is_const for r in self.array_dims)
 
     @property
     def type(self):
